@@ -606,7 +606,8 @@ Section Oracle.
   Variable open : bytes -> bytes -> option bytes -> bytes -> option bytes.
   Hypothesis open_seal : forall k n ad p, open k n ad (seal k n ad p) = Some p.
   Hypothesis open_only_seal : forall k n ad c p, open k n ad c = Some p -> c = seal k n ad p.
-  Hypothesis seal_inj : seal_inj_siv seal.
+  Hypothesis seal_inj : forall k n ad p k' n' ad' p',
+    seal k n ad p = seal k' n' ad' p' -> k = k' /\ n = n' /\ ad = ad' /\ p = p'.
   Hypothesis seal_len : forall k n ad p, length (seal k n ad p) = (16 + length p)%nat.
 
   Definition model_accepts (b key : bytes) (dir : Z) (reqid : bytes) : bool :=
@@ -648,7 +649,7 @@ Section Oracle.
     destruct (Hu p _ _ _ Hd Hc) as [h [Hin [Hct Hdir]]].
     destruct (Hh h Hin) as [Gn Gp [hpt Gc] [gcs [gn Gu]]].
     assert (Ect : h_ct h = p_ct p) by exact Hct.
-    rewrite Gc, Hc in Hct. apply seal_inj in Hct. destruct Hct as [Emac [Ekey [En [Ead Ept]]]].
+    rewrite Gc, Hc in Hct. apply seal_inj in Hct. destruct Hct as [Ek [En [Ead Ept]]].
     inversion Ead as [Epre].
     assert (Epos : h_pos h = p_pos p).
     { apply (f_equal (@length Z)) in Epre. rewrite !firstn_length in Epre.
@@ -657,11 +658,7 @@ Section Oracle.
     apply existsb_exists. exists h. split; auto.
     unfold justifies, untampered. rewrite Epos.
     assert (T1 : key_accepts h key = true).
-    { unfold key_accepts. apply orb_true_iff. destruct hpt as [|x hpt'].
-      - right. apply andb_true_iff. split.
-        + apply Nat.eqb_eq. rewrite Gc, seal_len. reflexivity.
-        + apply bytes_eqb_eq. exact Emac.
-      - left. apply bytes_eqb_eq. apply Ekey. discriminate. }
+    { unfold key_accepts. apply bytes_eqb_eq. exact Ek. }
     assert (T2 : (h_dir h =? dir) = true) by (apply Z.eqb_eq; auto).
     assert (T3 : (p_pos p <=? length b)%nat = true) by (apply Nat.leb_le; destruct W as [_ _ H1 _ _ _]; lia).
     assert (T4 : bytes_eqb (firstn (p_pos p) b) (firstn (p_pos p) (h_bytes h)) = true).
@@ -904,7 +901,7 @@ Lemma c10_packet_oracle : forall seal open, ideal_aead seal open ->
   C10_packet_ok hs b key dir reqid (model_accepts open b key dir reqid) = true.
 Proof.
   intros seal open [A [B [C D]]]. intros.
-  eapply model_meets_packet_oracle; eauto. apply seal_inj_siv_of. exact C.
+  eapply model_meets_packet_oracle; eauto.
 Qed.
 
 Lemma c10_cookie_oracle : forall seal open, ideal_aead seal open ->
@@ -987,7 +984,6 @@ Lemma c10_listener_sound : forall seal open, ideal_aead seal open ->
                    cookie_open open cb mk = Ok sc.
 Proof.
   intros seal open [A [B [C D]]] getkey hs b p sc H Hh Hu.
-  pose proof (seal_inj_siv_of seal C) as C'.
   unfold server_nts in H.
   destruct (decode_packet b) as [q| | |] eqn:Hd; try discriminate.
   destruct (first_cookie q) as [cb| | |] eqn:Hf; try discriminate.
